@@ -547,6 +547,39 @@ func (e *Engine) discharge(obls []*Obligation) {
 			}
 		}
 	})
+	// conjunctive goals the solvers answer "unknown" on as a whole (quantifier instantiation gives up
+	// on the large term) are retried conjunct by conjunct; all pieces unsat proves the goal
+	var und []*Obligation
+	for _, o := range obls {
+		if o.Expect == "unsat" && o.Res.Status != "unsat" && o.Res.Status != "sat" && len(und) < 24 {
+			und = append(und, o)
+		}
+	}
+	parallelDo(len(und), 4, func(i int) {
+		o := und[i]
+		pieces := splitGoal(o.Goal)
+		tail := "(assert (not " + o.Goal + "))\n(check-sat)\n"
+		if len(pieces) < 2 || len(pieces) > 32 || !strings.HasSuffix(o.SMT, tail) {
+			if os.Getenv("GOVC_DEBUG") != "" {
+				fmt.Fprintf(os.Stderr, "split: %s %s: %d pieces, suffix=%v\n", o.Func, o.Name, len(pieces), strings.HasSuffix(o.SMT, tail))
+			}
+			return
+		}
+		head := strings.TrimSuffix(o.SMT, tail)
+		var total float64
+		for k, pc := range pieces {
+			r, all := raceSolvers(e.tmp, fmt.Sprintf("split%02d_%02d_%s_%s", i, k, shortKey(o.Func), o.Name), head+"(assert (not "+pc+"))\n(check-sat)\n", e.timeout, false, nil)
+			o.All = append(o.All, all...)
+			if r.Status != "unsat" {
+				if os.Getenv("GOVC_DEBUG") != "" {
+					fmt.Fprintf(os.Stderr, "split: %s %s: piece %d/%d %s\n", o.Func, o.Name, k, len(pieces), r.Status)
+				}
+				return
+			}
+			total += r.Secs
+		}
+		o.Res = solverRes{Solver: fmt.Sprintf("split(%d)", len(pieces)), Status: "unsat", Secs: total}
+	})
 	// second chance for obligations that only ran out of time (a loaded machine must not turn a
 	// provable obligation into an alarm): a few at a time, four times the limit
 	var late []*Obligation
@@ -766,4 +799,99 @@ func rootGlobal(v ssa.Value) *ssa.Global {
 		}
 	}
 	return nil
+}
+
+// splitGoal breaks a goal of the shape (=> a1 (=> a2 ... (and c1 c2 ...))) into the goals
+// (=> a1 (=> a2 ... ci)); proving every piece proves the goal. Returns nil if there is nothing to split.
+func splitGoal(g string) []string {
+	var ante []string
+	cur := strings.TrimSpace(g)
+	for strings.HasPrefix(cur, "(=> ") {
+		as := sexprArgs(cur)
+		if len(as) != 2 {
+			break
+		}
+		ante = append(ante, as[0])
+		cur = as[1]
+	}
+	var conj []string
+	var flat func(s string)
+	flat = func(s string) {
+		if strings.HasPrefix(s, "(and ") {
+			for _, a := range sexprArgs(s) {
+				flat(a)
+			}
+			return
+		}
+		conj = append(conj, s)
+	}
+	flat(cur)
+	if len(conj) < 2 {
+		return nil
+	}
+	out := make([]string, 0, len(conj))
+	for _, c := range conj {
+		for i := len(ante) - 1; i >= 0; i-- {
+			c = "(=> " + ante[i] + " " + c + ")"
+		}
+		out = append(out, c)
+	}
+	return out
+}
+
+// sexprArgs returns the top-level arguments of "(op a b ...)".
+func sexprArgs(s string) []string {
+	s = strings.TrimSpace(s)
+	if len(s) < 2 || s[0] != '(' || s[len(s)-1] != ')' {
+		return nil
+	}
+	in := s[1 : len(s)-1]
+	sp := strings.IndexAny(in, " \n\t")
+	if sp < 0 {
+		return nil
+	}
+	in = in[sp:]
+	var out []string
+	depth, start := 0, -1
+	inBar := false
+	for i := 0; i < len(in); i++ {
+		c := in[i]
+		if inBar {
+			if c == '|' {
+				inBar = false
+			}
+			continue
+		}
+		switch {
+		case c == '|':
+			inBar = true
+			if depth == 0 && start < 0 {
+				start = i
+			}
+		case c == '(':
+			if depth == 0 && start < 0 {
+				start = i
+			}
+			depth++
+		case c == ')':
+			depth--
+			if depth == 0 {
+				out = append(out, in[start:i+1])
+				start = -1
+			}
+		case c == ' ' || c == '\n' || c == '\t':
+			if depth == 0 && start >= 0 {
+				out = append(out, in[start:i])
+				start = -1
+			}
+		default:
+			if depth == 0 && start < 0 {
+				start = i
+			}
+		}
+	}
+	if start >= 0 {
+		out = append(out, in[start:])
+	}
+	return out
 }
